@@ -61,9 +61,9 @@ var ETypeNames = map[int32]string{16: "des3-cbc-sha1-kd", 17: "aes128-cts-hmac-s
 func RealmName(i int) string { return fmt.Sprintf("R%d.TEST", i) }
 
 // ExtraSPNs is the number of additional services (pool indices 5..) registered in the last realm.
-const ExtraSPNs = 4000
+const ExtraSPNs = 40000
 
-// SPN pool: 0..2 remote services (in the last realm), 3 local service, 4 unknown, 5..4004 further remote services.
+// SPN pool: 0..2 remote services (in the last realm), 3 local service, 4 unknown, 5..40004 further remote services (owned on demand).
 func (s *Spec) SPN(i int) string {
 	switch {
 	case i <= 2:
